@@ -161,7 +161,7 @@ def l2_l5(prog, ctx):
     fa = render(g.call_args()[1])
     # the file name is built from parse_dirs[<element>]
     elem = None
-    for c in f.calls(("stpcpy", "strcpy", "snprintf", "combine_strings")):
+    for c in f.calls(("stpcpy", "strcpy", "snprintf", "combine_strings", "memcpy", "mempcpy", "strlen", "asprintf", "strcat", "strncpy")):
         if c.within(lp):
             for a in c.call_args():
                 t = render(a)
@@ -197,6 +197,17 @@ def l2_l5(prog, ctx):
         # does this edge lead out of the loop without another iteration?
         if not any(s == hb for (bb, ii, s) in cfg.edges() if bb in reg):
             stops = (b, i, tgt, reg)
+    if not stops:
+        # the same through consistent paths: with the probe's result known to be 0 no path leads back to the loop header
+        # (if (error != ECONF_NOFILE) break;  covers the success as well)
+        pos = cfg.index_of(up)
+        if pos is not None and cfg.feasible_reach(hb, lambda l9, bb, ii: False, lambda a9: a9 == ev, start=pos[0], init_facts={ev: False, "=" + ev: 0},
+                                                  start_index=pos[1] + 1, nonempty=True) is None:
+            leave = [(b, i) for (b, i, s) in cfg.edges() if b in body and s not in body and cfg.edge_lit(b, i) is not None and ev in cfg.edge_lit(b, i).atom
+                     and gb in cfg.reachable(b, forward=False)]
+            if leave:
+                b, i = leave[0]
+                stops = (b, i, cfg.blocks[b].succs[i], cfg.reachable(cfg.blocks[b].succs[i], avoid_blocks=[hb]))
     if stops:
         ctx.ok("L2", "the first main file found ends the scan", cfg.blocks[stops[0]].cond.where, "the edge %s == ECONF_SUCCESS leaves the loop" % ev)
         # L3: nothing about the object's content decides on that path
@@ -751,9 +762,36 @@ def l13b(prog, ctx):
         if sw_if is not None and u.within(sw_if):
             continue
         up = u.up()
-        # tests of the argument itself (project == NULL, strlen(project) == 0 in the refusal at the top) are not compositions
-        if any(a.k in ("IfStmt",) and a.child("cond") is not None and u.within(a.child("cond")) for a in u.ancestors()) and \
-                not any(a.k == "CallExpr" and a.j.get("callee") in ("snprintf", "asprintf", "sprintf", "strcpy", "stpcpy", "strcat", "combine_strings") for a in u.ancestors()):
+        # tests of the argument itself (project == NULL, *project, strlen(project) - in a condition or in the initialiser of a flag) are
+        # not compositions; a composition hands the text on: into a string-building call, or into a pointer variable
+        kind9 = None
+        prev9 = u
+        for a in u.ancestors():
+            if a.k == "BinaryOperator" and a.j.get("op") in ("==", "!=", "<", ">", "<=", ">=", "&&", "||"):
+                kind9 = "test"
+                break
+            if a.k == "UnaryOperator" and a.j.get("op") in ("!", "*"):
+                kind9 = "test"
+                break
+            if a.k == "ArraySubscriptExpr":
+                kind9 = "test"
+                break
+            if a.k == "ConditionalOperator" and a.child("cond") is not None and (prev9 is a.child("cond") or prev9.within(a.child("cond"))):
+                kind9 = "test"
+                break
+            if a.k == "CallExpr":
+                kind9 = "test" if a.j.get("callee") in ("strlen", "strcmp", "strncmp") else "compose"
+                break
+            if a.k in ("IfStmt", "WhileStmt", "ForStmt") :
+                kind9 = "test"
+                break
+            if a.k == "DeclStmt" or (a.k == "BinaryOperator" and a.j.get("op") == "="):
+                kind9 = "compose" if (prev9.j.get("ct") or "").endswith("*") else "test"
+                break
+            if a.k in ("CompoundStmt", "ReturnStmt"):
+                break
+            prev9 = a
+        if kind9 != "compose":
             continue
         ub = cfg.block_of(u)
         if ub is not None and rb in cfg.reachable(ub) and ub != rb:
